@@ -156,7 +156,7 @@ def check(case):
             if int(rank_diff) != want:
                 return r.fail("rank-difference-wrong", "alpha=%g: reported %s, d - rank = %d" % (alpha, rank_diff, want))
         # invariance under a common rescaling of all features
-        for c in (0.5, 3.0):
+        for c in (0.5, 3.0, 2.0 ** -20, 2.0 ** 17):  # incl. features in very small / large units (exact powers of two)
             L2, _ = local_prediction_rigidity([t * c for t in train], [t * c for t in test], alpha * 1.0)
             r.transitions += 1
             f2 = np.concatenate([np.asarray(x, float).ravel() for x in L2])
